@@ -64,6 +64,7 @@ Lemma staged_ok_b_sound c t i : staged_ok_b c t i = true -> staged_ok c t i.
 Proof.
   unfold staged_ok_b. intros H.
   apply andb_true_iff in H as [H Hdups]. apply andb_true_iff in H as [H Hman].
+  apply andb_true_iff in H as [H Hss]. apply andb_true_iff in H as [H Hsi].
   apply andb_true_iff in H as [H Hhs]. apply andb_true_iff in H as [H Hhi].
   apply andb_true_iff in H as [H Hvs]. apply andb_true_iff in H as [Hanc Hinv].
   constructor.
@@ -71,6 +72,8 @@ Proof.
     apply (prefixes_ne_In [] (c_so c) q); auto.
   - destruct (read_file t (c_so c ++ [c_inv c])); [|discriminate]. apply content_eqb_eq in Hinv. congruence.
   - destruct (i_vs i); [discriminate | discriminate].
+  - now apply negb_seg.
+  - now apply negb_seg.
   - now apply negb_seg.
   - now apply negb_seg.
   - intros d I. rewrite forallb_forall in Hman. specialize (Hman d I).
